@@ -137,9 +137,7 @@ pub fn complete_credential(c: &CredSnap) -> Result<(), String> {
     if derived != vk {
         return Err("stored scalar does not match stored public point".into());
     }
-    if c.id.is_empty() {
-        return Err("stored credential id is empty".into());
-    }
+    // (an empty id is legal: a U2F key handle may have 0..255 bytes)
     Ok(())
 }
 
